@@ -259,5 +259,8 @@ instance : Add GF := ⟨fun a b => ⟨fadd a.v b.v⟩⟩
 instance : Sub GF := ⟨fun a b => ⟨fsub a.v b.v⟩⟩
 instance : Mul GF := ⟨fun a b => ⟨fmul a.v b.v⟩⟩
 instance : NatCast GF := ⟨fun n => ⟨n % P⟩⟩
+instance : Inv GF := ⟨fun a => ⟨finv a.v⟩⟩
+instance : One GF := ⟨⟨1⟩⟩
+instance : Zero GF := ⟨⟨0⟩⟩
 
 end Miden
